@@ -203,3 +203,16 @@ def _sym_ops():
 
 
 _sym_ops()
+
+
+class OrdOnly:
+	"""a value ordered by __lt__ alone (all list.sort needs): two instances of one rank TIE - neither is smaller - although they are different
+	objects, unequal and hashed apart (identity == / hash)"""
+	def __init__(self, rank, tag=""):
+		self.rank, self.tag = rank, tag
+
+	def __lt__(self, other):
+		return self.rank < other.rank
+
+	def __repr__(self):
+		return f"OrdOnly({self.rank}{self.tag})"
